@@ -46,35 +46,31 @@ PROPS = {
         unproved=[WRITER_UNPROVED, READER_UNPROVED], assumptions=[ASSUME_CODEC, ASSUME_IO, ASSUME_PHYS, ASSUME_DROP],
         explanation='function-level contracts proved by Verus; end-to-end round trip bounded'),
     'C02': dict(
-        verus_required=False,
         level='other',
-        level_text='No discharged contract yet on the search path beyond the [u8] lexicographic-order axiom used by BlockWriter; decided by a bounded stand-in: for 14+ files (index depth 0..4, deep trees with few long keys, blocks holding exact multiples of the in-block interval, keys differing only by trailing zero bytes, the empty key) every equivalence class of probes (each key, each gap, before first, after last, prefixes and extensions) is sought with GE/LE/EQ on fresh, reset and cloned cursors and compared with the ceiling/floor/match of the sorted list.',
+        level_text='Proved (Verus, unbounded): the in-block search — BlockCursor::move_on_key_lower_than_or_equal_to returns the floor and move_on_key_greater_than_or_equal_to the ceiling of the probe among the entries of a loaded block (binary search over the offset table + linear scan, against oracles is_floor/is_ceil written from the statement), Block::read_from/entry_at decode exactly the entries of the stored block. The tree descent (IndexBlockCursor / ReaderCursor) carries declared but not yet discharged contracts; it is decided by a bounded stand-in: for 14+ files (index depth 0..4, deep trees with few long keys, blocks holding exact multiples of the in-block interval, keys differing only by trailing zero bytes, the empty key) every equivalence class of probes (each key, each gap, before first, after last, prefixes and extensions) is sought with GE/LE/EQ on fresh, reset and cloned cursors and compared with the ceiling/floor/match of the sorted list.',
         level_note=READER_UNPROVED + '; bounded: file sizes <= 2500 entries',
-        technique='bounded differential stand-in on the real Reader (contracts on BlockCursor/ReaderCursor pending)',
+        technique='Verus contracts on Block/BlockCursor (in-block floor/ceiling) + bounded differential stand-in for the index-tree descent',
         kani=[], native=[N('verif_cursor::c02_seeks', '14 files (26 thorough), <= 2500 entries, ~7500 probes x {fresh, reset+clone}')], witness=[],
         unproved=[READER_UNPROVED], explanation='bounded stand-in only for now'),
     'C03': dict(
-        verus_required=False,
         level='other',
-        level_text='Bounded stand-in: random operation histories (first,last,next,prev,GE,LE,EQ,reset,clone,current; long next/prev runs crossing several index blocks between absolute moves; the documented first,first,next*,first sweep; clone independence) on files with index depth 0..4 are replayed against a model whose state is (sorted content, logical position). The literal clause about current() after a None-returning move is a recorded finding.',
+        level_text='Proved (Verus): every BlockCursor operation (current, first, last, next, prev, seeks) preserves the block-cursor representation invariant and returns the entry determined by (entries, logical position) only. ReaderCursor-level history independence is decided by a bounded stand-in: random operation histories (first,last,next,prev,GE,LE,EQ,reset,clone,current; long next/prev runs crossing several index blocks between absolute moves; the documented first,first,next*,first sweep; clone independence) on files with index depth 0..4 are replayed against a model whose state is (sorted content, logical position). The literal clause about current() after a None-returning move is a recorded finding.',
         level_note=READER_UNPROVED + '; bounded: <= 840 histories of <= ~12000 operations per run (3x in thorough)',
-        technique='bounded model-based stand-in on the real ReaderCursor (representation-invariant contract pending)',
+        technique='Verus representation invariant on BlockCursor + bounded model-based stand-in on the real ReaderCursor',
         kani=[], native=[N('verif_cursor::c03_histories', '60 (300 thorough) random histories per file x 14 files + sweep and clone scenarios'), N('verif_cursor::c03_current_after_none_literal', 'same histories; literal current() clause (known finding)')], witness=[],
         unproved=[READER_UNPROVED], explanation='bounded stand-in only for now'),
     'C04': dict(
-        verus_required=False,
         level='other',
-        level_text='Bounded stand-in: forward and reverse range iterators over all 9 bound-kind combinations with present/absent/equal/inverted bounds on files with index depth 0..4 and variable-length keys, compared with the filtered sorted list.',
+        level_text='Proved (Verus, unbounded, relative to the declared ReaderCursor contracts): RangeIter::next / RevRangeIter::next return, on the first call, the first (last) entry satisfying the start (end) bound iff it also satisfies the opposite bound, and afterwards the adjacent entry iff it satisfies the opposite bound; end_contains/start_contains are exactly the bound predicates of the statement. The ReaderCursor contracts themselves are assumed (not discharged) and exercised by the bounded stand-in: forward and reverse range iterators over all 9 bound-kind combinations with present/absent/equal/inverted bounds on files with index depth 0..4 and variable-length keys, compared with the filtered sorted list.',
         level_note=READER_UNPROVED + '; bounded: ~1300 ranges per run',
-        technique='bounded differential stand-in on the real RangeIter/RevRangeIter (contracts over the cursor pending)',
+        technique='Verus contracts on RangeIter/RevRangeIter over assumed cursor contracts + bounded differential stand-in',
         kani=[], native=[N('verif_cursor::c04_ranges', '95 (405 thorough) ranges per file x 14 files')], witness=[],
         unproved=[READER_UNPROVED], explanation='bounded stand-in only for now'),
     'C05': dict(
-        verus_required=False,
         level='other',
-        level_text='Bounded stand-in: forward and reverse prefix iterators for prefixes that are empty, longer than every key, stored keys, ending in / made of / containing interior 0xFF bytes, matching nothing; compared with the filtered sorted list.',
+        level_text='Proved (Verus, unbounded, relative to the declared ReaderCursor contracts): advance_key computes the prefix successor adv(p) (None iff p is empty or all 0xFF), with the lemmas that keys with prefix p are exactly the keys in [p, adv(p)); PrefixIter::next / RevPrefixIter::next / move_on_last_prefix return the first (last) entry of that interval iff it has the prefix, then the adjacent one. The ReaderCursor contracts are assumed and exercised by the bounded stand-in: forward and reverse prefix iterators for prefixes that are empty, longer than every key, stored keys, ending in / made of / containing interior 0xFF bytes, matching nothing; compared with the filtered sorted list.',
         level_note=READER_UNPROVED + '; bounded: ~2000 prefixes per run',
-        technique='bounded differential stand-in on the real PrefixIter/RevPrefixIter (contract on advance_key pending)',
+        technique='Verus contracts on advance_key/PrefixIter/RevPrefixIter over assumed cursor contracts + bounded differential stand-in',
         kani=[], native=[N('verif_cursor::c05_prefixes', '~150 prefixes per file x 14 files')], witness=[],
         unproved=[READER_UNPROVED], explanation='bounded stand-in only for now'),
     'C06': dict(
